@@ -3,6 +3,17 @@ import json, os
 VERIF = os.path.dirname(os.path.dirname(os.path.abspath(__file__)))
 PROOF = "proof"
 CHECKS = {
+ "C15": dict(
+    text="Lean 4 theorem truth_table: every formula tree over ~ & | ^ (any depth, any number of variables) decompresses to exactly its "
+         "0/1 truth table — the operator overloads are arithmetic expressions (C02.expr_dense) that coincide with the connectives on "
+         "0/1 values; the symbol tensors are proved to be the coordinate projections; thresholds of the predicates are extracted from "
+         "logic.py on every run and a count is ≤ thr<1 iff it is 0. Formula trees are tied to /repo core-for-core through the C02 model; "
+         "all 276 Boolean functions of ≤3 variables, helpers, predicates, relevant/irrelevant symbols, only() by exhaustive truth tables.",
+    note="Trusted: Lean kernel + standard axioms; harness glue; sampling for ≥4 variables. sqrt(2^(1/N)) of `^` enters as kernel answer "
+         "rho with rho^N = 2. Outside: float noise of un-rounded formulas against the absolute thresholds (two known findings), "
+         "intermediate round() (C04), helpers all/any/none/one (oracle only).",
+    tech="Lean 4 proof (structural induction over formula trees via C02.expr_dense) + differential correspondence + exhaustive truth tables",
+    ref="§3 C15"),
  "C16": dict(
     text="Lean 4 theorems by induction on the chain of shift-register cores, for every N, every per-position alphabet and every weight "
          "list: weight_mask is 1 exactly on strings whose symbols sum to a requested weight (0 elsewhere), weight returns the sum, the "
